@@ -129,7 +129,7 @@ def main(spec, tier, seed):
     if (broken or disagreements) and not [f for f in failures if f.cls not in known_classes] and res is not None:
         searched = True
         log(f"[{pid}] tie broken ({len(broken)} obligations, {len(disagreements)} disagreements): searching for a failing input")
-        extra = spec.generate(spec.search_tier(), seed + 1)
+        extra = spec.generate(spec.search_tier(), seed + 1)[:getattr(spec, 'search_cap', 20000)]
         cand = [all_cases[i] for i, _ in disagreements[:50]] + extra
         r2 = run_cases(spec, cand, "search")
         failures += r2["failures"]; evaluations += len(cand)
